@@ -148,7 +148,8 @@ def render(afile):
             if s.get('props'):
                 line += ' # ' + s['props']
         elif k == 'global':
-            line = 'global ' + _props_text(s['props'])
+            line = (_case('global', s.get('case', 'lower')) + ' '
+                    + _props_text(s['props']))
         elif k == 'region':
             line = render_region(s, frame if frame is not None else 'image')
             if line.startswith('#'):
